@@ -296,6 +296,30 @@ static bool mode_pton_grammar() {
             if (!expect_mask(b, net, 128, true)) return false;
         }
     }
+    // fully zero-padded groups: texts of 40 characters and more
+    for (int i = 0; i < NG; i++) for (int n = 0; n <= 128; n += (n < 8 || n > 120) ? 1 : 8) {
+        uint16_t net[8] = {gv[i], 0xdb8, 0, 0, 0, 0, 0, gv[(i + 3) % NG]};
+        snprintf(b, sizeof b, "%04x:%04x:%04x:%04x:%04x:%04x:%04x:%04x/%d", net[0], net[1], net[2], net[3], net[4], net[5], net[6], net[7], n);
+        if (!expect_mask(b, net, n, true)) return false;
+        snprintf(b, sizeof b, "%04x:%04x:%04x:%04x:%04x:%04x:%04x:%04x", net[0], net[1], net[2], net[3], net[4], net[5], net[6], net[7]);
+        if (!expect_mask(b, net, 128, true)) return false;
+        uint16_t m4[8] = {0, 0, 0, 0, 0, 0xffff, (uint16_t)((192 << 8) | 168), (uint16_t)((100 << 8) | (gv[i] & 255))};
+        snprintf(b, sizeof b, "0000:0000:0000:0000:0000:ffff:192.168.100.%d", gv[i] & 255);
+        if (!expect_mask(b, m4, 128, true)) return false;
+    }
+    // an IPv4 network or wildcard written after an IPv6 prefix: the length counts from the start of the 128 bits
+    for (int a = 0; a < NO; a += 2) for (int c = 0; c < NO; c += 3) for (int n = 0; n <= 32; n++) {
+        const char *pre[] = {"::ffff:", "0::ffff:", "0:0:0:0:0:ffff:"};
+        for (int f = 0; f < 3; f++) {
+            uint16_t net[8] = {0, 0, 0, 0, 0, 0xffff, (uint16_t)((oct[a] << 8) | oct[c]), (uint16_t)((oct[c] << 8) | oct[a])};
+            if (f == 0) continue;      // a leading ':' cannot reach the daemon as one parameter; kept out of the grammar set
+            snprintf(b, sizeof b, "%s%d.%d.%d.%d/%d", pre[f], oct[a], oct[c], oct[c], oct[a], n);
+            if (!expect_mask(b, net, 96 + n, true)) return false;
+            uint16_t w2[8] = {0, 0, 0, 0, 0, 0xffff, (uint16_t)((oct[a] << 8) | oct[c]), 0};
+            snprintf(b, sizeof b, "%s%d.%d.*", pre[f], oct[a], oct[c]);
+            if (n == 0 && !expect_mask(b, w2, 112, true)) return false;
+        }
+    }
     uint16_t z[8] = {0, 0, 0, 0, 0, 0, 0, 0};
     if (!expect_mask("*", z, 0, true)) return false;
     if (!expect_mask("***", z, 0, true)) return false;
